@@ -4240,6 +4240,13 @@ class Macro:
                 MacroArgumentKind.MATCH: ("regex", "end_expr", "concat_expr", "string_const", "string_case_const", "binary_regex", "binary_string_const"),
                 MacroArgumentKind.INTEXPR: ("string_const", "bool_const", "number_const", "char_const", "identifier_const", *all_sum_expr_nodes)
             }[argspec.kind]
+            if argspec.kind in (MacroArgumentKind.MATCH, MacroArgumentKind.INTEXPR) and value.data == "identifier_const":
+                # an argument of the calling macro passed on to this one: bind what it stands for
+                # (binding the name itself makes the callee look its own argument up again)
+                try:
+                    value = parse_ctx._lookup_named_entity(MacroArgumentKind.EXPR, value.children[0])
+                except UndefinedReferenceError:
+                    pass
             if value.data not in allowed_types:
                 raise IllegalParseTree("Invalid argument type for argument " + argspec.name, value)
             if argspec.should_early_bind():
